@@ -217,3 +217,12 @@ Fixpoint py_enumerate_from {X} (i : Z) (l : list X) : list (Z * X) :=
   | x :: l' => (i, x) :: py_enumerate_from (i + 1)%Z l'
   end.
 Definition py_enumerate {X} (l : list X) : list (Z * X) := py_enumerate_from 0%Z l.
+
+(* a loop whose body never returns or breaks ends with LoopDone (or raises) *)
+Lemma for_each_continue {X V} (l : list X) (body : X -> V -> res (loop_step unit V)) :
+  (forall x v, match body x v with Ok (LContinue _) => True | Raise _ => True | _ => False end) ->
+  forall v, match for_each l v body with Ok (LoopDone _) => True | Raise _ => True | _ => False end.
+Proof.
+  intro H. induction l as [|x l IH]; intro v; simpl; [exact I|].
+  specialize (H x v). destruct (body x v) as [[r|v'|v']|e]; try contradiction; [apply IH | exact I].
+Qed.
